@@ -190,7 +190,7 @@ func c03Run(c *Ctx) {
 func init() {
 	register(&PropDef{
 		ID: "C03", Level: "exploration",
-		Rule:        "G at <=1 non-default production (thorough <=2), all 6 gates (also lines the tool must not touch) and all containers, plus T = every vocabulary path x 53 value kinds x 5 tree shapes x 10 placements; flag sets over N,B,I,W,R,Y,Z (never --redactFieldNames); inputs with duplicate sibling keys are skipped; oracle = the output parses (own parser) as one object on one line whose tree has the same member names in the same order, the same array lengths and the same leaf types as the input tree. distinct = distinct input lines",
+		Rule:        "G at <=1 non-default production (thorough <=2), all 6 gates (also lines the tool must not touch) and all containers, plus T = every vocabulary path x 53 value kinds x 5 tree shapes x 10 placements; flag sets over N,B,I,W,R,Y,Z (never --redactFieldNames); inputs with duplicate sibling keys are skipped; oracle = the output parses (own parser) as one object on one line whose tree has the same member names in the same order, the same array lengths and the same leaf types as the input tree. distinct = distinct input lines" + scaleRule,
 		Assumptions: []string{"the independent JSON parser of the harness is the judge of well-formedness"},
 		Run:         c03Run,
 	})
